@@ -307,3 +307,11 @@ class VCtxBump(ContextProcessor):
     @classmethod
     def context_keys(cls):
         return [cls.CONTEXT_OUTPUT_KEY]
+
+
+class VSilentFail(FloatOperation):
+    """Raises an exception that carries no message at all (str(exc) == "")."""
+
+    def _process_logic(self, data):
+        CALL_LOG.append(("VSilentFail", data.data))
+        raise ValueError()
